@@ -26,3 +26,4 @@ def run(ctx):
     tl.rule_F2f(ctx)
     tl.rule_F2g(ctx)
     tl.rule_F2h(ctx)
+    tl.rule_F2i(ctx)
